@@ -158,6 +158,12 @@ pub fn from_json_unreachable_stub<T: serde::de::DeserializeOwned>(_value: impl A
     Err(StdError::generic_err("from_json stubbed"))
 }
 
+/// Stub for `cosmwasm_std::Binary::to_base64` (the base64 encoder does not finish under CBMC): a fixed 4-character
+/// text.  Used only where the obligation is "the typed Binary payload is JSON-encoded (a quoted string), not raw".
+pub fn b64_stub(_b: &cosmwasm_std::Binary) -> String {
+    String::from("QQ==")
+}
+
 /// symbolic ASCII string of at most N bytes, without `from_utf8`
 #[cfg(kani)]
 pub fn any_ascii<const N: usize>(buf: &mut [u8; N]) -> &str {
